@@ -942,7 +942,7 @@ impl<'a> CompilerState<'a> {
                 let mut px = pair.into_inner();
                 let mut s = self.compile_quoted_string(px.next().unwrap())?;
                 let size = if let Some(x) = px.next() {
-                    Some(self.parse_calc(x.into_inner())? as u32)
+                    Some(self.parse_size(x.into_inner(), pos)? as u32)
                 } else {
                     None
                 };
@@ -1058,6 +1058,12 @@ impl<'a> CompilerState<'a> {
                 unreachable!()
             }
         }
+    }
+
+    // An array size or a size hint: a constant expression that is not negative
+    fn parse_size(&self, pairs: Pairs<'a, Rule>, loc: usize) -> Result<usize, Error> {
+        let v = self.parse_calc(pairs)?;
+        usize::try_from(v).map_err(|_| self.syntax_error("A size can't be negative", loc))
     }
 
     fn parse_calc(&self, pairs: Pairs<'a, Rule>) -> Result<i32, Error> {
@@ -1352,7 +1358,7 @@ impl<'a> CompilerState<'a> {
                             Rule::array_spec => {
                                 start = p.as_span().start();
                                 if let Some(px) = p.into_inner().next() {
-                                    size = Some(self.parse_calc(px.into_inner())? as usize);
+                                    size = Some(self.parse_size(px.into_inner(), start)?);
                                 }
                                 if var_type == VariableType::Char {
                                     var_type = VariableType::CharPtr;
@@ -1870,7 +1876,7 @@ impl<'a> CompilerState<'a> {
                                     Rule::array_spec => {
                                         start = p.as_span().start();
                                         if let Some(px) = p.into_inner().next() {
-                                            size = Some(self.parse_calc(px.into_inner())? as usize);
+                                            size = Some(self.parse_size(px.into_inner(), start)?);
                                         }
                                         if var_type == VariableType::Char {
                                             var_type = VariableType::CharPtr;
@@ -2188,7 +2194,7 @@ impl<'a> CompilerState<'a> {
                                 Rule::array_spec => {
                                     start = pair.as_span().start();
                                     if let Some(px) = pair.into_inner().next() {
-                                        size = Some(self.parse_calc(px.into_inner())? as usize);
+                                        size = Some(self.parse_size(px.into_inner(), start)?);
                                     }
                                     if var_type == VariableType::Char {
                                         var_type = VariableType::CharPtr;
